@@ -100,6 +100,38 @@ def reportedSlack (m : POMDP) (useTol : Bool) (var : Rat) (h : Nat) : Rat :=
 
 def clampActive (m : POMDP) : Bool := decide (1 - m.γ < Gen.C03Src.clamp)
 
+/-- the model has a positive transition / observation probability (or product) at or below the library's `equalToleranceSmall`: the
+    1e-6 cut-offs of `GapMin::makeNewPomdp`, `LPInterpolation` and `bestPromisingAction` drop mass that is really there -/
+def tinyModel (m : POMDP) : Bool :=
+  let θ := Gen.equalToleranceSmall
+  (List.range m.A).any (fun a => (List.range m.S).any (fun s => (List.range m.S).any (fun s1 =>
+    (decide (0 < m.T s a s1) && decide (m.T s a s1 ≤ θ)) ||
+    (List.range m.O).any (fun o => (decide (0 < m.Ob s1 a o) && decide (m.Ob s1 a o ≤ θ)) ||
+      (decide (0 < m.T s a s1 * m.Ob s1 a o) && decide (m.T s a s1 * m.Ob s1 a o ≤ θ))))))
+
+/-- the slack `anytimeT_sound` (Props/C03Trunc) proves sufficient for the cut-offs: `e = C·D/(1−γ)` with `C = max(0, max R)/(1−γ)` (bounds `H L`),
+    `D = O·(S+N)·θ` (mass dropped per pseudo-state and action: `truncW_residual` over `S+N` pseudo-states, zero-state classification) -/
+def cutSlack (m : POMDP) (npts : Nat) : Rat :=
+  let rmax := let r := maxRall m; if r < 0 then 0 else r
+  truncSlack m.γ (rmax / (1 - m.γ)) ((m.O : Rat) * ((m.S + npts : Nat) : Rat) * Gen.equalToleranceSmall)
+
+/-- the slack `pointBackup_src_cut_sound` (Props/C03Trunc) proves sufficient for Projecter's possible-observation cut on the LOWER side:
+    `e = γ·K·O·θ/(1−γ)` with `K = max|R|/(1−γ)`, `θ` = the threshold the source has (0 once the test is `> 0.0`) -/
+def lowCutSlack (m : POMDP) : Rat :=
+  let θ : Rat := if Gen.C03Src.projecterObsCut then Gen.equalToleranceSmall else 0
+  m.γ * (maxAbsR m / (1 - m.γ)) * ((m.O : Rat) * θ) / (1 - m.γ)
+
+/-- first vector / probe where a lower-bound vector exceeds `ref x + slack`, with the amount -/
+def vecAboveBy (m : POMDP) (vs : List Vec) (xs : List (Vec × Rat)) (slack : Rat) : Option (Rat × String) :=
+  firstSome vs (fun α => firstSome xs (fun (x, u) =>
+    if decide (dotV m.S x α ≤ u + slack) then none else some (dotV m.S x α - u - slack, s!"alpha·x={ratStr (dotV m.S x α)} ref={ratStr u} at x={showVec x}")))
+
+/-- name of a failing lower-bound clause: within the proved cut-off slack on a model with sub-threshold probabilities it is the recorded
+    cut-off defect; anything larger is the plain failure -/
+def lbKind (kind : String) (m : POMDP) (excess : Rat) : String :=
+  if tinyModel m && decide (excess ≤ lowCutSlack m) then kind ++ "_within_proved_cutoff_slack" else kind
+
+
 /-! ### blind -/
 
 /-- `blind <pomdp> <b0> fast h tol | variation vlist` -/
@@ -204,14 +236,18 @@ def vfChecks (comp : String) (m : POMDP) (xs : List Vec) (c0 : Rat) (kmax : Nat)
   let v := v.diffIf resL.isSome s!"{comp} vector_not_backup_of_its_links {resL.getD ""}"
   let resS := firstSome idx (fun t =>
     let xsf := xs.map (fun x => (x, finU m c0 t kmax x))
-    match vecAbove m ((vf.getD t #[]).toList.map (·.values)) xsf eps with | some s => some s!"t={t} {s}" | none => none)
-  let v := v.failIf resS.isSome s!"{comp} vector_above_finite_horizon_optimum {resS.getD ""}"
+    match vecAboveBy m ((vf.getD t #[]).toList.map (·.values)) xsf eps with | some (d, s) => some (d, s!"t={t} {s}") | none => none)
+  let v := match resS with
+    | some (d, s) => v.failIf true s!"{comp} {lbKind "vector_above_finite_horizon_optimum" m d} {s}"
+    | none => v
   match alsoInf with
   | none => v
   | some r =>
     let xsi := xs.map (fun x => (x, r.U x))
-    let resI := firstSome idx (fun t => match vecAbove m ((vf.getD t #[]).toList.map (·.values)) xsi eps with | some s => some s!"t={t} {s}" | none => none)
-    v.failIf resI.isSome s!"{comp} vector_above_optimal_value {resI.getD ""}"
+    let resI := firstSome idx (fun t => match vecAboveBy m ((vf.getD t #[]).toList.map (·.values)) xsi eps with | some (d, s) => some (d, s!"t={t} {s}") | none => none)
+    match resI with
+    | some (d, s) => v.failIf true s!"{comp} {lbKind "vector_above_optimal_value" m d} {s}"
+    | none => v
 
 /-- `pbvi <pomdp> <b0> h tol nb beliefs… | variation T vlists` -/
 def pbviOp : P String := do
@@ -244,21 +280,6 @@ def perseusOp : P String := do
 
 /-! ### SARSOP / GapMin: snapshots and returned tuples -/
 
-/-- the model has a positive transition / observation probability (or product) at or below the library's `equalToleranceSmall`: the
-    1e-6 cut-offs of `GapMin::makeNewPomdp`, `LPInterpolation` and `bestPromisingAction` drop mass that is really there -/
-def tinyModel (m : POMDP) : Bool :=
-  let θ := Gen.equalToleranceSmall
-  (List.range m.A).any (fun a => (List.range m.S).any (fun s => (List.range m.S).any (fun s1 =>
-    (decide (0 < m.T s a s1) && decide (m.T s a s1 ≤ θ)) ||
-    (List.range m.O).any (fun o => (decide (0 < m.Ob s1 a o) && decide (m.Ob s1 a o ≤ θ)) ||
-      (decide (0 < m.T s a s1 * m.Ob s1 a o) && decide (m.T s a s1 * m.Ob s1 a o ≤ θ))))))
-
-/-- the slack `anytimeT_sound` (Props/C03Trunc) proves sufficient for the cut-offs: `e = C·D/(1−γ)` with `C = max(0, max R)/(1−γ)` (bounds `H L`),
-    `D = O·(S+N)·θ` (mass dropped per pseudo-state and action: `truncW_residual` over `S+N` pseudo-states, zero-state classification) -/
-def cutSlack (m : POMDP) (npts : Nat) : Rat :=
-  let rmax := let r := maxRall m; if r < 0 then 0 else r
-  truncSlack m.γ (rmax / (1 - m.γ)) ((m.O : Rat) * ((m.S + npts : Nat) : Rat) * Gen.equalToleranceSmall)
-
 /-- an upper-bound clause `ref ≤ val`: fine within the float slack; within the proved cut-off slack on a model with sub-threshold
     probabilities it is the (recorded) cut-off defect and named so; anything else is the plain failure -/
 def ubKind (kind : String) (tiny : Bool) (eps cut l val : Rat) : Option String :=
@@ -273,14 +294,17 @@ def boundClauses (comp : String) (m : POMDP) (r : Refs) (b0 : Vec) (lb ub : Rat)
   let cut := if tiny then cutSlack m npts else 0
   let u0 := r.U b0
   let l0 := r.L b0
-  let v := v.failIf (!(decide (lb ≤ u0 + eps))) s!"{comp} lb_above_optimal_value lb={ratStr lb} ref={ratStr u0}"
+  let v := v.failIf (!(decide (lb ≤ u0 + eps))) s!"{comp} {lbKind "lb_above_optimal_value" m (lb - u0 - eps)} lb={ratStr lb} ref={ratStr u0}"
   let v := match ubKind "ub_below_optimal_value" tiny eps cut l0 ub with
     | some k => v.failIf true s!"{comp} {k} ub={ratStr ub} ref={ratStr l0}"
     | none => v
-  let v := v.failIf (!(decide (lb ≤ ub + eps + cut))) s!"{comp} lb_above_ub lb={ratStr lb} ub={ratStr ub}"
+  let v := if decide (lb ≤ ub + eps) then v else
+    v.failIf true s!"{comp} {if tiny && decide (lb ≤ ub + eps + cut + lowCutSlack m) then "lb_above_ub_within_proved_cutoff_slack" else "lb_above_ub"} lb={ratStr lb} ub={ratStr ub}"
   let ps := probes m b0
-  let resV := vecAbove m (vl.toList.map (·.values)) (ps.map (fun x => (x, r.U x))) eps
-  let v := v.failIf resV.isSome s!"{comp} lb_vector_above_optimal_value {resV.getD ""}"
+  let resV := vecAboveBy m (vl.toList.map (·.values)) (ps.map (fun x => (x, r.U x))) eps
+  let v := match resV with
+    | some (d, s) => v.failIf true s!"{comp} {lbKind "lb_vector_above_optimal_value" m d} {s}"
+    | none => v
   let resQ := firstSome ps (fun x => let l := r.L x; match ubKind "ubQ_below_optimal_value" tiny eps cut l (basicValV m Q x) with
     | some k => some (k, s!"ubQ(x)={ratStr (basicValV m Q x)} ref={ratStr l} x={showVec x}")
     | none => none)
